@@ -1,5 +1,32 @@
-(** C13 -- placeholder while the proofs are built *)
-From RL Require Import Model.Decode.
-Theorem C13_placeholder : m_decode strict_opts [] = Val (Err [IncompleteFlags], []).
-Proof. reflexivity. Qed.
-Print Assumptions C13_placeholder.
+(** C13 -- Revealing is total: any hidden octets, any secret, any random vector
+    (including ill-sized ones) give Ok of the announced attribute type or Err; never
+    Panic, never UB (reads stay inside the hidden value).  Rejection classes: empty,
+    not a multiple of 16, decrypted length out of range or beyond the value. *)
+From RL Require Import Base.Md5 Model.Decode Model.Hide Spec.SpecDecode Spec.SpecHide
+  Proofs.Hiding Proofs.Md5Facts.
+
+Theorem C13_reveal_total : forall (H : list N -> list N), (forall x, len (H x) = 16) ->
+  forall t v secret rv,
+  exists r, m_reveal H (AHidden t v) secret rv = Val r /\
+            (forall a, r = Ok a -> attr_type a = t /\ is_hidden a = false).
+Proof. exact reveal_total. Qed.
+
+Theorem C13_rejects : forall (H : list N -> list N), (forall x, len (H x) = 16) -> forall t v secret rv,
+  (len v = 0 \/ len v mod 16 <> 0 \/
+   fld 2 0 (s_decrypt H t secret rv v) < 6 \/ 1023 < fld 2 0 (s_decrypt H t secret rv v) \/
+   len (s_decrypt H t secret rv v) - 2 < fld 2 0 (s_decrypt H t secret rv v) - 6) ->
+  exists e, s_reveal H t v secret rv = Err e.
+Proof. exact reveal_rejects. Qed.
+
+Theorem C13_reveal_total_md5 : forall t v secret rv,
+  exists r, m_reveal md5 (AHidden t v) secret rv = Val r /\
+            (forall a, r = Ok a -> attr_type a = t /\ is_hidden a = false).
+Proof. exact (reveal_total md5 md5_len). Qed.
+
+(** the D7 class of the pinned tree: 16 zero octets under a wrong key return, they do not panic *)
+Example C13_D7 : exists r, m_reveal md5 (AHidden 7 (repeat 0 16)) [115] [0;0;0;37] = Val r.
+Proof. eexists. vm_compute. reflexivity. Qed.
+
+Print Assumptions C13_reveal_total.
+Print Assumptions C13_rejects.
+Print Assumptions C13_reveal_total_md5.
